@@ -728,6 +728,10 @@ impl World {
                 let r = catch_unwind(AssertUnwindSafe(|| match spec {
                     Spec::Get(..) | Spec::GetDefault => {
                         let explicit = match spec {
+                            // the convenience constructor is another way to say "wait only"
+                            Spec::Get(w, Tmo::None, Tmo::None) if i % 2 == 0 && matches!(w, Tmo::Zero | Tmo::Finite) => {
+                                Some(Timeouts::wait_millis(w.dur().unwrap().as_millis() as u64))
+                            }
                             Spec::Get(w, c, r) => Some(Timeouts {
                                 wait: w.dur(),
                                 create: c.dur(),
@@ -780,7 +784,15 @@ impl World {
                             }
                         });
                         match res {
-                            Ok(o) => {
+                            Ok(mut o) => {
+                                // the holder uses the object mutably (`DerefMut`, `AsMut`): that is
+                                // no business of the metrics
+                                {
+                                    let t: &mut Tracked = &mut o;
+                                    t.released = false;
+                                    let t2: &mut Tracked = o.as_mut();
+                                    t2.released = false;
+                                }
                                 let m = Object::metrics(&o);
                                 sched.event(format!("handout({},{})", i, show_obj(&sched, o.id, m)));
                                 sched.event(format!("result({},ok:{})", i, o.id));
@@ -789,7 +801,14 @@ impl World {
                             Err(e) => sched.event(format!("result({},{})", i, e)),
                         }
                     }
-                    Spec::Ret(_) => drop(obj.unwrap()),
+                    Spec::Ret(_) => {
+                        let mut o = obj.unwrap();
+                        {
+                            let t: &mut Tracked = &mut o;
+                            t.released = false;
+                        }
+                        drop(o)
+                    }
                     Spec::RetUnwind(_) => {
                         // the holder panics with the object in scope: `Object::drop` runs during
                         // the unwinding (it must behave like any other return)
